@@ -86,7 +86,9 @@ R4 = [
       'retain(|k| k != &key) -> remove every occurrence (std adapter, assumed contract)'),
     R('R4.sum_values', r'(@ID@) \. values \( \) \. map \( \| (@ID@) \| \2 \. value \. estimate_memory \( \) \) \. sum :: < usize > \( \)',
       r'sum_estimates(&*\1)', 'values().map(estimate).sum() -> fold of estimates over the map (std adapters, assumed contract)'),
-    R('R4.opt_estimate', r'(@ID@) \. get \( & (@ID@) \) \. map \( \| (@ID@) \| \3 \. value \. estimate_memory \( \) \) \. unwrap_or \( 0 \)',
+    R('R4.sum_dashmap', r'self \. (@ID@) \. iter \( \) \. map \( \| (@ID@) \| \2 \. value \( \) \. 0 \. estimate_memory \( \) \) \. sum \( \)',
+      r'sum_estimates_a(&self.\1)', 'DashMap iter().map(estimate).sum() -> fold of estimates over the map (assumed contract)'),
+    R('R4.opt_estimate', r'(@ID@|self \. @ID@ \. borrow \( \)) \. get \( & (@ID@) \) \. map \( \| (@ID@) \| \3 \. value \. estimate_memory \( \) \) \. unwrap_or \( 0 \)',
       r'opt_estimate(\1.get(&\2))', 'Option::map(estimate).unwrap_or(0) (std adapters, assumed contract)'),
     R('R4.enumerate', r'(@ID@) \. iter \( \) \. enumerate \( \)', r'enum_collect(&*\1)',
       'iter().enumerate() -> the vector of (index, &element) pairs it yields (iterator = the sequence it yields)'),
